@@ -25,6 +25,9 @@ fn shapes(cx: &Cx) -> Vec<Vec<usize>> {
 }
 
 const PARTS: u64 = 8;
+const SLOTV: u64 = 4;
+/// memory sizes: powers of two and not (slot selection must be a true modulo)
+const SLOT_VARIANTS: [usize; 4] = [4, 3, 6, 5];
 
 #[derive(Clone)]
 struct TrainT {
@@ -47,6 +50,9 @@ fn outcome(r: &DecRes) -> String {
 
 fn make_trains(rng: &mut Rng, shape: &[usize], slots: usize) -> Option<Vec<TrainT>> {
     let mut out = Vec::new();
+    if shape.len() > slots {
+        return None;
+    }
     for (i, nf) in shape.iter().enumerate() {
         // ids distinct modulo the slot count
         let id = (i + slots * rng.below(256 / slots)) as u8;
@@ -96,13 +102,13 @@ impl Property for Prop {
         "C07"
     }
     fn rule(&self) -> &'static str {
-        "merges: for each shape (fragments per PDU: 2x2, 2x3, 3x3, 2x4, 2x5, 3x4, 4x4, 5x5, 3x3x3, 2x3x4, 2x2x2x2, 2x2x3; thorough adds 4x4x4, 3x3x3x3, 5x5x2x2, 4x5x5, 2x2x2x3) trains are built by the real encapsulator on fragment ids distinct modulo the slot count and EVERY order-preserving merge is decapsulated on a fresh receiver (key = shape x 8 parts of the merge index space); the result stream restricted to each train must equal that train decapsulated alone, with exactly one delivery per PDU at its own end fragment. strays: for every merge of the small shapes one stray packet is inserted at EVERY position from {intermediate / end of an unknown id in an empty slot, intermediate / end of an id aliasing an open slot (id +/- slots), complete packet (accepted), complete packet with no storage left (rejected), end fragment with a bad CRC for a finished id}. restart: a new first fragment on the same id restarts only that id. sampled: random merges of 4x5 with 0..3 strays. Evaluations = decap calls; non-trivial = a merge in which at least two trains were really interleaved; fingerprint = hash(shape, merge order, stray)."
+        "merges: for each shape (fragments per PDU: 2x2, 2x3, 3x3, 2x4, 2x5, 3x4, 4x4, 5x5, 3x3x3, 2x3x4, 2x2x2x2, 2x2x3; thorough adds 4x4x4, 3x3x3x3, 5x5x2x2, 4x5x5, 2x2x2x3) trains are built by the real encapsulator on fragment ids distinct modulo the slot count (each shape on memories of 4, 3, 6 and 5 slots) and EVERY order-preserving merge is decapsulated on a fresh receiver (key = shape x memory size x 8 parts of the merge index space); the result stream restricted to each train must equal that train decapsulated alone, with exactly one delivery per PDU at its own end fragment. strays: for every merge of the small shapes one stray packet is inserted at EVERY position from {intermediate / end of an unknown id in an empty slot, intermediate / end of an id aliasing an open slot (id +/- slots), complete packet (accepted), complete packet with no storage left (rejected), end fragment with a bad CRC for a finished id}. restart: a new first fragment on the same id restarts only that id. sampled: random merges of 4x5 with 0..3 strays. Evaluations = decap calls; non-trivial = a merge in which at least two trains were really interleaved; fingerprint = hash(shape, merge order, stray)."
     }
     fn gens(&self, cx: &Cx) -> Vec<Gen> {
         let s = shapes(cx).len() as u64;
         vec![
-            Gen { name: "merges", count: s * PARTS, exhaustive: true },
-            Gen { name: "strays", count: 6 * PARTS, exhaustive: true },
+            Gen { name: "merges", count: s * SLOTV * PARTS, exhaustive: true },
+            Gen { name: "strays", count: 6 * SLOTV * PARTS, exhaustive: true },
             Gen { name: "restart", count: cx.n(2_000, 100_000), exhaustive: false },
             Gen { name: "sampled", count: cx.n(10_000, 1_000_000), exhaustive: false },
         ]
@@ -110,15 +116,21 @@ impl Property for Prop {
     fn run_key(&self, cx: &Cx, gen: &str, key: u64, rep: &mut Report) {
         let replay_s = format!("gen={} key={} seed={} profile={}", gen, key, cx.seed, cx.profile);
         let replay = || replay_s.clone();
-        let slots = 4usize;
+        // memory sizes incl. non powers of two (slot selection must be a true modulo)
+        // key layout for merges / strays: ((shape * SLOTV) + slot variant) * PARTS + part
+        let slots = match gen {
+            "merges" | "strays" => SLOT_VARIANTS[((key / PARTS) % SLOTV) as usize],
+            "sampled" => [4usize, 5, 6, 7][(key % 4) as usize],
+            _ => [4usize, 3, 6, 5, 2, 8][(key % 6) as usize],
+        };
         let table = MandTable::none();
         // the alone-reference of a train: outcomes when decapsulated alone on a fresh receiver
         let alone = |t: &TrainT| -> Vec<String> {
-            let mut d = plain_dec(slots, 64, 6, 64, MandTable::none());
+            let mut d = plain_dec(slots, 64, slots + 2, 64, MandTable::none());
             t.pkts.iter().map(|p| outcome(&dec_guard(&mut d, p))).collect()
         };
         let run_merge = |trains: &[TrainT], refs: &[Vec<String>], order: &[usize], stray: Option<(usize, &Vec<u8>, &str)>, rep: &mut Report| -> bool {
-            let mut d = plain_dec(slots, 64, 6, 64, table.clone());
+            let mut d = plain_dec(slots, 64, slots + 2, 64, table.clone());
             let mut next = vec![0usize; trains.len()];
             let mut delivered = vec![0usize; trains.len()];
             let mut pos = 0usize;
@@ -172,8 +184,12 @@ impl Property for Prop {
         match gen {
             "merges" | "strays" => {
                 let sh = shapes(cx);
-                let (shape, part) = if gen == "merges" { (sh[(key / PARTS) as usize].clone(), key % PARTS) } else { (sh[[0usize, 1, 2, 8, 10, 11][(key / PARTS) as usize]].clone(), key % PARTS) };
-                let mut rng = Rng::derive(cx.seed, fnv(b"merges-trains"), fnv(format!("{:?}", shape).as_bytes()));
+                let (shape, part) = if gen == "merges" { (sh[(key / PARTS / SLOTV) as usize].clone(), key % PARTS) } else { (sh[[0usize, 1, 2, 8, 10, 11][(key / PARTS / SLOTV) as usize]].clone(), key % PARTS) };
+                if shape.len() > slots {
+                    rep.count("c07.shape-needs-more-slots");
+                    return;
+                }
+                let mut rng = Rng::derive(cx.seed, fnv(b"merges-trains"), fnv(format!("{:?}/{}", shape, slots).as_bytes()));
                 let trains = match make_trains(&mut rng, &shape, slots) {
                     Some(t) => t,
                     None => {
@@ -257,7 +273,7 @@ impl Property for Prop {
                     p[2] = trains[0].id;
                 }
                 // CRC does not cover the frag id, so the train stays valid
-                let mut d = plain_dec(slots, 64, 6, 64, table.clone());
+                let mut d = plain_dec(slots, 64, slots + 2, 64, table.clone());
                 // feed: t0[0], t1[0], t0[1] (old), then restart: a[0], t1[1], a[1], a[2] -> delivered a; t1[2] -> delivered t1
                 let seq: Vec<(&Vec<u8>, &str)> = vec![(&trains[0].pkts[0], "F"), (&trains[1].pkts[0], "F"), (&trains[0].pkts[1], "F"), (&a.pkts[0], "F"), (&trains[1].pkts[1], "F"), (&a.pkts[1], "F"), (&a.pkts[2], "Ca"), (&trains[1].pkts[2], "C1")];
                 for (i, (p, want)) in seq.iter().enumerate() {
